@@ -10,6 +10,7 @@ import Mfi.Lemmas.ResL
 import Mfi.Lemmas.BankL
 import Mfi.Lemmas.SkelL
 import Mfi.Lemmas.ConstL
+import Mfi.Lemmas.TagL
 
 namespace Mfi.Props.C17
 open Mfi Mfi.Fx Mfi.Bank Mfi.Gen
@@ -286,5 +287,10 @@ theorem capacity_after_accrual :
     constants on every run; the model computes its own powers of ten and is diffed against the real functions across
     ALL 24 decimals) -/
 theorem scaling_table_is_powers_of_ten : Mfi.Gen.EXP_10_I80F48 = Mfi.Fx.POW10FX := Mfi.ConstL.exp10_table_exact
+
+/-- the token-denominated accounting this file is about is the only accounting the standard instructions can reach:
+    they are constrained to the program's own banks (constraint table regenerated from the source; Mfi.TagL) -/
+theorem standard_instructions_only_on_own_banks : Mfi.TagL.OwnBanks :=
+  Mfi.TagL.standard_instructions_only_on_own_banks
 
 end Mfi.Props.C17
